@@ -9,6 +9,7 @@ RULE = ("structured transactions (0..4 inputs, 0..3 outputs, scripts from a gram
         "and to_json) and CBOR bytes compared with the model's printers, every-prefix-is-refused and trailing-bytes probes; boundary "
         "stream: pushes of 2047/2048/2049 bytes (ciborium's 4096-byte scratch buffer), conditional nesting on both sides of the decoder "
         "guards (JSON 61/62, CBOR 125/126/127, single input 126/127/128) with empty / opcode / push innermost bodies, u32/u64 extremes; "
+        "value-dependent stream: one-byte pushes of every value 0x00..0xff (direct, PUSHDATA1, inside conditionals, as Coinbase bits), two-byte pushes with all-digit hex, previous-output ids with leading/trailing zero bytes, empty vs missing optional fields, PUSHDATA1/2 at the top of their length fields; at the data-model level every look-alike string (ASM short forms 0..17, decimals, OP_FALSE/OP_TRUE, other spellings and lower-case / prefix-less forms of every opcode name) in every position where a name or a hex text is read; "
         "scripts the byte parser cannot produce (Push of 0 and of more than 75 bytes, PushData with any opcode, Coinbase bits anywhere) "
         "through bits.*_roundtrip; malformed documents at the data-model level through tx.de_json / tx.de_cbor / txin.de_cbor: every "
         "field dropped / duplicated / retyped / out of range, unknown fields (deep, long-named), structs as arrays, every alternative "
@@ -27,7 +28,7 @@ ASSUMPTIONS = ["the theorems are about trees (serde data model); that serde_json
                "native-stack exhaustion on very deep nesting is outside the model (the decoders' guards act first: 127 / 256 levels)"]
 
 U64 = 2 ** 64
-VALUES = [0, 1, 2 ** 53 - 1, 2 ** 53, 2 ** 53 + 1, 2 ** 63 - 1, 2 ** 63, 2 ** 64 - 1]
+VALUES = [0, 1, 2 ** 53 - 1, 2 ** 53, 2 ** 53 + 1, 2 ** 63 - 1, 2 ** 63, 2 ** 63 + 1, 2 ** 64 - 2, 2 ** 64 - 1]
 OPS = [0, 79, 81, 82, 96, 97, 105, 106, 107, 117, 118, 135, 136, 147, 169, 171, 172, 174, 186, 255, 80, 103, 104]
 GENESIS = ("01000000010000000000000000000000000000000000000000000000000000000000000000ffffffff4d04ffff001d0104455468652054696d65732030"
            "332f4a616e2f32303039204368616e63656c6c6f72206f6e206272696e6b206f66207365636f6e64206261696c6f757420666f722062616e6b73ffffffff"
@@ -294,6 +295,19 @@ def tree_cases(tier):
         T(base_tx(bits=[b])); T(base_tx(bits=["OP_1", b, "00"]))
         T(base_tx(bits=[M([("code", "OP_IF"), ("pass", [b]), ("fail", [b])])]))
         T(base_in(bits=[b]), txin=True)
+    # strings that look like something else, in every position where an opcode name or a hex text is read
+    for b in LOOKALIKES:
+        T(base_tx(bits=[b])); T(base_in(bits=[b]), txin=True)
+        T(base_tx(bits=[[b, "aa"]])); T(base_tx(bits=[["OP_PUSHDATA1", b]]))
+        T(base_tx(bits=[M([("code", b), ("pass", []), ("fail", None)])])); T(base_tx(bits=[M([("code", "OP_IF"), ("pass", [b]), ("fail", [b])])]))
+        T(base_tx(bits=[M([(b, None)])]), both=True)
+        T(base_tx(outs=[with_val(base_out(), "script_pub_key", [b])])); T(base_tx(ins=[with_val(base_in(), "unlocking_script", [b])]))
+        T(base_tx(ins=[with_val(base_in(), "prev_tx_id", b)]))
+    names = opcode_names()
+    for nm in names:
+        T(base_tx(bits=[nm.lower()])); T(base_tx(bits=[nm[3:]]))
+    T(base_tx(bits=names[:60])); T(base_tx(bits=names[60:])); T(base_in(bits=names[:60]), txin=True)
+    T(base_tx(bits=[[nm, ""] for nm in names[:40]]))
     # hex text of a push on both sides of ciborium's scratch buffer
     for n in (2047, 2048, 2049):
         T(base_tx(bits=[S("l:4:%d" % n)])); T(base_tx(bits=[["OP_PUSHDATA2", S("l:4:%d" % n)]]))
@@ -331,6 +345,70 @@ def rand_bits(rng, depth):
     return toks
 
 
+
+def opcode_names():
+    """names of the OpCodes enum, from the table regenerated at the start of every check"""
+    import os, re
+    path = os.path.join(os.path.dirname(os.path.dirname(os.path.dirname(os.path.abspath(__file__)))), "coq", "Gen", "Opcodes_gen.v")
+    try:
+        return re.findall(r'\("(OP_[A-Za-z0-9_]+)", \d+%N\)', open(path).read())
+    except OSError:
+        return ["OP_0", "OP_1", "OP_16", "OP_DUP", "OP_IF", "OP_CHECKSIG"]
+
+
+# strings that look like something else: ASM short forms, decimals, aliases, other spellings of names
+LOOKALIKES = ([str(i) for i in range(0, 18)] + ["%02d" % i for i in range(0, 18)] + ["%03d" % i for i in (0, 1, 10, 16)]
+              + ["OP_FALSE", "OP_TRUE", "op_0", "op_1", "Op_0", "OP_0 ", " OP_0", "OP-0", "OP0", "FALSE", "TRUE", "false", "true", "null",
+                 "-1", "+1", "0x10", "1e1", "1.0", "4f", "4F", "51", "60", "ff", "FF", "a", "A", "0a", "0A", "a0", "dup", "DUP", "OP_dup"])
+
+
+def value_dependent(A, both, tier):
+    """scripts whose hex text could be taken for something else: one-byte pushes of EVERY value (the hex of 0x10..0x16 reads
+    as a decimal / ASM short form), two-byte pushes with all-digit hex, the same through PUSHDATA1, inside conditionals"""
+    ident = "l:11:32"
+    for c in range(8):
+        vals = range(32 * c, 32 * c + 32)
+        s = "".join("01%02x" % v for v in vals)
+        w = tx_wire(1, [(ident, 0, s, 0)], [(1, s)], 0)
+        e = "1." + s
+        both(w, e); A("txin.cbor_roundtrip", w, e, 0); A("txin.json", w, e, 0); A("tx.to_json", w, e)
+        s2 = "63" + s + "67" + s + "68"
+        both(tx_wire(1, [(ident, 0, s2, 0)], [(0, s2)], 0), "n." + s2)
+        bts = ",".join("p%02x" % v for v in vals)
+        A("bits.json_roundtrip", bts); A("bits.cbor_roundtrip", bts)
+        A("bits.json_roundtrip", "iOP_IF," + bts + ",e," + bts + ",z"); A("bits.cbor_roundtrip", "iOP_NOTIF," + bts + ",e," + bts + ",z")
+        bcb = ",".join("c%02x" % v for v in vals)          # Coinbase bits of every one-byte value (inside the known class)
+        A("bits.json_roundtrip", bcb)
+        s3 = "".join("4c01%02x" % v for v in vals)
+        both(tx_wire(1, [(ident, 0, s3, 0)], [(0, s3)], 0), "-")
+    # each suspicious value also alone, so that a replay is minimal
+    for v in list(range(0x00, 0x17)) + [0x4f, 0x51, 0x60, 0x99, 0xff]:
+        s = "01%02x" % v
+        w = tx_wire(1, [(ident, 0, s, 0)], [(1, s)], 0)
+        both(w, "1." + s); A("txin.cbor_roundtrip", w, "1." + s, 0); A("bits.json_roundtrip", "p%02x" % v); A("bits.cbor_roundtrip", "p%02x" % v)
+    two = ["0000", "0001", "0010", "0016", "0100", "1000", "1234", "1600", "1616", "9999", "0099", "4f50"]
+    s = "".join("02" + t for t in two) + "03000010" + "03123456" + "0400000016"
+    w = tx_wire(1, [(ident, 0, s, 0)], [(1, s)], 0)
+    both(w, "1." + s); A("txin.cbor_roundtrip", w, "1." + s, 0)
+    A("bits.json_roundtrip", ",".join("p" + t for t in two)); A("bits.cbor_roundtrip", ",".join("p" + t for t in two))
+    for t in two:
+        both(tx_wire(1, [(ident, 0, "02" + t, 0)], [], 0), "-")
+    # previous-output ids whose hex text has leading / trailing zeros, or is all zeros without the coinbase index
+    for i in ("r:00:31+01", "01+r:00:31", "r:00:32", "r:00:16+r:ff:16", "00+l:3:31", "l:3:31+00", "r:10:32", "r:16:32"):
+        w = tx_wire(1, [(i, 0, "51", 0), (i, 0xffffffff if i != "r:00:32" else 7, "", 0)], [], 0)
+        both(w, "-"); A("txin.cbor_roundtrip", w, "-", 0); A("txin.json", w, "-", 1)
+    # empty vs missing optional fields
+    w = tx_wire(1, [(ident, 0, "", 0), (ident, 1, "", 0)], [(0, "")], 0)
+    for e in ("-", "n.n,n.n", "0.n,n.", "0.,0.", "n.,0.n", "18446744073709551615.00,9223372036854775809.4c00"):
+        both(w, e); A("txin.cbor_roundtrip", w, e, 0); A("txin.cbor_roundtrip", w, e, 1); A("tx.to_json", w, e); A("tx.to_cbor", w, e)
+    # PUSHDATA1 / PUSHDATA2 at the top of their length fields
+    sizes = [("4cff", 255), ("4dff00", 255), ("4d0001", 256)] + ([] if tier == "quick" else [("4dffff", 65535), ("4e00000100", 65536)])
+    for pre, n in sizes:
+        s = pre + "+l:%d:%d" % (n, n)
+        w = tx_wire(1, [(ident, 0, s, 0)], [(1, s)], 0)
+        both(w, "-"); A("txin.cbor_roundtrip", w, "-", 0); A("tx.to_cbor", w, "-")
+
+
 def generate(rng, tier):
     quick = tier == "quick"
     cases = []
@@ -365,6 +443,8 @@ def generate(rng, tier):
               "4d0001+l:1:256", "4e00010000+l:1:256", "4f", "51", "60", "00+00+4c00", "6a+4c00"):
         w = tx_wire(1, [("l:4:32", 0, s, 0)], [(1, s)], 0)
         both(w, "1." + s); A("tx.to_json", w, "1." + s); A("tx.to_cbor", w, "n.n"); A("txin.cbor_roundtrip", w, "1." + s, 0)
+    # ---- value-dependent: hex texts that look like something else, ids with zeros, empty vs missing
+    value_dependent(A, both, tier)
     # ---- pushes on both sides of 2048 bytes (hex text 4096 chars = ciborium scratch buffer)
     for n in (2047, 2048, 2049) + (() if quick else (4095, 4096, 4097, 5000)):
         s = "4d" + le(n, 2) + "+l:%d:%d" % (n, n)
@@ -452,6 +532,8 @@ def search_cases(rng, broken):
     out = []
     for bts in ("c00", "p00", "oOP_1", "dOP_PUSHDATA1x00", "iOP_IF,z", "iOP_IF,e,z"):
         out.append(("bits.json_roundtrip", [bts])); out.append(("bits.cbor_roundtrip", [bts]))
+    for v in range(256):
+        out.append(("bits.json_roundtrip", ["p%02x" % v])); out.append(("bits.cbor_roundtrip", ["p%02x" % v]))
     for v in VALUES:
         w = tx_wire(1, [("l:3:32", 0, "51", 0)], [(v, "51")], 0)
         out.append(("tx.json_roundtrip", [w, "%d.51" % v])); out.append(("tx.cbor_roundtrip", [w, "%d.51" % v]))
